@@ -272,7 +272,13 @@ func derivedFrom(backendKey, k string) bool {
 // chunkedBackendCheck verifies that the fake's live entries are exactly a
 // faithful chunked image of the model's live keys.
 func chunkedBackendCheck(live map[string]fakemc.Entry, m *refmodel.Model, alphabet []string, now int64) string {
-	for _, k := range alphabet {
+	return chunkedBackendCheckKeys(live, m, alphabet, alphabet, now)
+}
+
+// chunkedBackendCheckKeys judges the images of judged keys only; entries may
+// be derived from any key of the alphabet.
+func chunkedBackendCheckKeys(live map[string]fakemc.Entry, m *refmodel.Model, judged, alphabet []string, now int64) string {
+	for _, k := range judged {
 		it := m.Live(k, now)
 		me, hasMeta := live[k+"-meta"]
 		if it == nil {
